@@ -90,6 +90,7 @@ def build():
 #[verifier::external_body] pub struct ImmutableListMap { _p: () }
 ''', label='Octet::zero / one; opaque column index type')
     u.struct('src/sparse_vec.rs', 'SparseBinaryVec')
+    u.struct('src/octets.rs', 'BinaryOctetVec')
     u.struct('src/sparse_matrix.rs', 'SparseBinaryMatrix', subst=[('    debug_indexed_column_valid: Vec<bool>,\n', '')])
     u.raw('} // verus!')
     u.raw(v_dense.SPEC.split('// the abstract matrix: cell (i, j) of a dense matrix')[0] + '\n} // verus!\n', label='rw / bit_of / <[T]>::swap spec (V-DENSE)')
@@ -114,6 +115,15 @@ fn verif_elem_insert(v: &mut Vec<SparseBinaryVec>, i: usize, a: usize, b: Octet)
             forall |k: u16| sv_has(final(v)@[i as int], k) == (if k == a as u16 { b.value != 0 } else { sv_has(old(v)@[i as int], k) }),
             forall |r: int| 0 <= r < old(v)@.len() && r != i ==> #[trigger] final(v)@[r] == old(v)@[r],
 { unimplemented!() }
+pub assume_specification<T: Clone>[ <[T]>::to_vec ](s: &[T]) -> (r: Vec<T>)
+    ensures r@.len() == s@.len(), forall |i: int| 0 <= i < s@.len() ==> cloned::<T>(#[trigger] s@[i], r@[i]);
+impl BinaryOctetVec {
+    #[verifier::external_body]
+    pub fn new(elements: Vec<u64>, length: usize) -> (r: BinaryOctetVec)
+        requires elements@.len() == rww(length as int),
+        ensures r.elements == elements, r.length == length,
+    { unimplemented!() }
+}
 // rule S4: vec![SparseBinaryVec::with_capacity(10); n] -- n empty sparse rows
 #[verifier::external_body]
 fn verif_empty_rows(n: usize) -> (r: Vec<SparseBinaryVec>)
@@ -201,6 +211,23 @@ impl SparseBinaryMatrix {
         }
     }
 }''')
+    u.fn('src/sparse_matrix.rs', 'get_sub_row_as_octets', impl=IMPLT, ret='r', rules=['A1'],
+         requires=['sp_wf(*self)', '(row as int) < self.height', 'self.num_dense_columns >= 1', 'start_col as int == self.width - self.num_dense_columns'],
+         ensures=['r.length == self.num_dense_columns', 'r.elements@.len() == rww(self.num_dense_columns as int)',
+                  # the packed words are the dense tail of the row: dense column c (logical column start_col + c) at global bit pad + c
+                  'forall |c: int| 0 <= c < self.num_dense_columns ==> #[trigger] bit_of(r.elements@[(pad(self.num_dense_columns as int) + c) / 64], (pad(self.num_dense_columns as int) + c) % 64) == sp_cell(*self, row as int, start_col as int + c)'],
+         hint_inserts=[('let last_word = first_word + self.row_word_width();', 'before',
+                        'proof { let nd = self.num_dense_columns as int; lemma_pad(nd); lemma_word_bounds(nd, self.height as int, physical_row as int, 0);'
+                        ' lemma_small_mod(pad(nd) as nat, 64); lemma_basic_div(pad(nd), 64);'
+                        ' assert(physical_row as int * rww(nd) + rww(nd) <= self.height as int * rww(nd)) by (nonlinear_arith) requires (physical_row as int) + 1 <= self.height as int, rww(nd) >= 0;'
+                        ' lemma_rww_formula(nd); assert(self.height as int * rww(nd) <= 16777216 * 1024) by (nonlinear_arith) requires 0 <= self.height as int <= 16777216, 0 <= rww(nd) <= 1024;'
+                        ' assert(first_word as int == physical_row as int * rww(nd)); }')],
+         resubst=[(r'(?s)(\n\s*)(BinaryOctetVec::new\(.*\))\s*\}\s*$', r'\1let verif_r = \2;\n proof { let nd = self.num_dense_columns as int; assert forall |c: int| 0 <= c < nd implies'
+                   r' #[trigger] bit_of(verif_r.elements@[(pad(nd) + c) / 64], (pad(nd) + c) % 64) == sp_cell(*self, row as int, start_col as int + c) by {'
+                   r' lemma_word_bounds(nd, self.height as int, physical_row as int, c); lemma_pad(nd);'
+                   r' assert((pad(nd) + c) / 64 < rww(nd)) by { if (pad(nd) + c) / 64 >= rww(nd) { lemma_fundamental_div_mod(pad(nd) + c, 64); assert(64 * ((pad(nd) + c) / 64) >= 64 * rww(nd)) by (nonlinear_arith) requires (pad(nd) + c) / 64 >= rww(nd); } }'
+                   r' lemma_div_pos_is_pos(pad(nd) + c, 64); let k = (pad(nd) + c) / 64; lemma_basic_div(pad(nd), 64); assert(first_word as int == physical_row as int * rww(nd));'
+                   r' let sl = self.dense_elements@.subrange(first_word as int, last_word as int); assert(k < rww(nd)); assert(sl[k] == self.dense_elements@[first_word as int + k]); assert(verif_r.elements@[k] == sl[k]); } }\n verif_r\n}', 'bind-tail-expression')])
     u.fn('src/sparse_matrix.rs', 'swap_rows', impl=IMPLT, ret='r',
          requires=['sp_wf(*old(self))', '(i as int) < old(self).height', '(j as int) < old(self).height'],
          ensures=['sp_wf(*final(self))', 'sp_frame(*old(self), *final(self))',
